@@ -129,6 +129,16 @@ Theorem C13_instance_bytes_normalize : forall m sh axes coords avar,
 Proof. exact case_instance_encode. Qed.
 Print Assumptions C13_instance_bytes_normalize.
 
+(* a named instance of the table itself as the user tuple (FvarTable::instances().nth(k), whose
+   coordinate array is handed to normalize): the record is found instanceSize bytes apart, with or
+   without postScriptNameID or further bytes, and normalises like any other tuple *)
+Theorem C13_named_instance_normalize : forall m sh axes k avar,
+  shape_legal sh -> len axes < 65536 -> Forall axis4_ok axes -> 0 <= k < sh_icnt sh ->
+  sh_isz sh = 4 + 4 * len axes \/ 6 + 4 * len axes <= sh_isz sh ->
+  case_named m sh axes k avar = fvar_normalize (map axis4_triple axes) (inst_coords k 0 axes) avar.
+Proof. exact case_named_encode. Qed.
+Print Assumptions C13_named_instance_normalize.
+
 (* wrong length is rejected against the table's axisCount at every entry point, for ANY table bytes *)
 Theorem C13_table_len_rejected : forall m f coords avar,
   len coords <> fvar_axis_count f -> fvar_normalize_tbl m f coords avar = Err BadValue.
@@ -173,4 +183,10 @@ Example C13_strided_too_long :
     [(2003265652, 100 * 65536, 400 * 65536, 900 * 65536); (1769234796, 0, 0, 65536)]
     [650 * 65536; 32768; 5] None
   = Err BadValue.
+Proof. vm_compute. reflexivity. Qed.
+Example C13_named_example :
+  case_named Release
+    {| sh_major := 1; sh_off := 16; sh_asz := 24; sh_dcount := 0; sh_icnt := 3; sh_isz := 14; sh_trail := 0 |}
+    [(2003265652, 100 * 65536, 400 * 65536, 900 * 65536); (1769234796, 0, 0, 65536)] 2 None
+  = Ok [16384; 8192].
 Proof. vm_compute. reflexivity. Qed.
